@@ -818,12 +818,18 @@ package trzsz
 //@ func trzszTransfer.pipelineRecvHashAck$1
 //@   requires t.buffer != nil && tbWF(t.buffer)
 //@   ghostvar agreed int64 = 0
+//@   # C02: an acknowledgement is accepted only for the block right after the last matching one - a lost or
+//@   # repeated acknowledgement line cannot make the two ends disagree about the resume offset (D8)
+//@   ghostvar prev int64 = 0
+//@   before send:matchChan#1 assert [C02,C08] hashAck.Step > agreed && hashAck.Step - agreed <= kPrefixHashStep
+//@   after trzszTransfer.recvHashAck set prev = agreed
 //@   after trzszTransfer.recvHashAck set agreed = ite(r1 == nil && r0.Match, r0.Step, agreed)
 //@   # what is reported to sendPrefixHash as the offset to resume from is exactly that step
 //@   before send:matchChan assert [C08] p0 == agreed
 //@   loop 1
 //@     invariant tbWF(t.buffer)
-//@     invariant [C08] (matchStep < size || matchStep == 0) && matchStep == agreed
+//@     invariant [C08] (matchStep < size || matchStep == 0) && matchStep == agreed && 0 <= matchStep
+//@     invariant [C02,C08] agreed == 0 || (prev < agreed && agreed - prev <= kPrefixHashStep)
 //@ end
 
 // ===========================================================================
